@@ -35,7 +35,7 @@ use serde_json::{Value, json};
 
 use p3_challenger::{CanObserve, CanSample, CanSampleBits, FieldChallenger, GrindingChallenger};
 use super::{EvLog, FriSpec, InstStatic, PowOverride, ShapeParams, effective_pow_bits, grind_variants, pow_reads, shape_line};
-use super::{AddAir, Circ, DemoAir, MulAir, Native, RunFn, Target, add_trace, bus_trace, panic_msg, perm_trace, table_trace, variant, variant2};
+use super::{AddAir, Circ, DemoAir, FeatAir, MulAir, Native, RunFn, Siblings, Target, add_trace, bus_trace, chunk_counts, features_of, panic_msg, perm_trace, table_trace, variant, variant2, wrongair_ids};
 use super::forge_prover::{Forge, forge_prove_batch};
 use super::forge_prover::uni::forge_prove_uni;
 
@@ -249,11 +249,19 @@ macro_rules! uni_target {
         let sp = ShapeParams { mode: "uni", zk: is_zk, d: 4, dg: DIGEST_ELEMS, nrc: if is_zk { 2 } else { 0 },
             cpow: spec.0, qpow: spec.1, log_blowup: spec.2, log_final: spec.3 };
         let shape = shape_line(&sp, &serde_json::to_value(&proof).unwrap(), &[inst]);
+        let features = features_of(
+            is_zk,
+            &[inst],
+            &[Siblings::<F>::periods(&air)],
+            &chunk_counts("uni", &serde_json::to_value(&proof).unwrap(), 1),
+            &[1usize << log_h],
+        );
         let honest = json!({
             "proof": serde_json::to_value(&proof).unwrap(),
             "pis": serde_json::to_value(&pis).unwrap(),
             "vd": vk.as_ref().map(|v| serde_json::to_value(&v.commitment).unwrap()).unwrap_or(Value::Null),
         });
+        let honest_vd: Value = honest["vd"].clone();
         let vk_of = {
             let vk = vk.clone();
             move |j: &Value| -> Option<Option<PreprocessedVerifierKey<$SC>>> {
@@ -358,7 +366,8 @@ macro_rules! uni_target {
             pow_reads() > r0
         };
         let grind: Vec<(usize, usize)> = if grind_ok { grind_variants(spec.0, spec.1) } else { vec![] };
-        let forge_ids = super::forge_ids(&[t_len], &[n_pis], &[0], &grind);
+        let mut forge_ids = super::forge_ids(&[t_len], &[n_pis], &[0], &grind);
+        forge_ids.extend(wrongair_ids::<F, _>(&[$mk_air]));
         let forge_fn = {
             let pis = pis.clone();
             move |id: &str| -> Result<Value, String> {
@@ -367,7 +376,23 @@ macro_rules! uni_target {
                 let mut pis = pis.clone();
                 let mut quot = None;
                 let mut prover_pow: Option<(usize, usize)> = None;
+                // the AIR the prover proves: the target's, or (wrong-AIR move) one of its siblings
+                let mut prover_air = $mk_air;
+                let mut wrong_air = false;
                 match spec {
+                    super::ForgeSpec::WrongAir(0, k) => {
+                        let sibs = Siblings::<F>::siblings(&prover_air);
+                        let (label, sib) = sibs.into_iter().nth(k).ok_or_else(|| format!("forgery {id}: no such sibling"))?;
+                        // a pinned id names its sibling: refuse if the sibling list has moved under it
+                        if id.split(':').nth(3).is_some_and(|l| l != label) {
+                            return Err(format!("forgery {id}: sibling {k} is {label}"));
+                        }
+                        let (t, p) = Siblings::<F>::sib_witness(&sib);
+                        trace = t;
+                        pis = p;
+                        prover_air = sib;
+                        wrong_air = true;
+                    }
                     super::ForgeSpec::None => {}
                     super::ForgeSpec::Grind(c, q) => prover_pow = Some((c, q)),
                     super::ForgeSpec::Trace(0, cell, delta) => {
@@ -393,15 +418,22 @@ macro_rules! uni_target {
                     }
                     config
                 };
+                let honest_vd = honest_vd.clone();
                 let r = catch_unwind(AssertUnwindSafe(|| {
-                    let air = $mk_air;
+                    let air = prover_air;
                     let log_h = p3_util::log2_strict_usize(trace.height());
                     let (ppd, vk) = setup_preprocessed(&config, &air, log_h).unzip();
                     let proof = forge_prove_uni(&config, &air, trace, &pis, ppd.as_ref(), quot);
+                    // wrong-AIR move: the verifier keeps ITS verifying data (the target's preprocessed commitment)
+                    let vd = if wrong_air {
+                        honest_vd
+                    } else {
+                        vk.as_ref().map(|v| serde_json::to_value(&v.commitment).unwrap()).unwrap_or(Value::Null)
+                    };
                     json!({
                         "proof": serde_json::to_value(&proof).unwrap(),
                         "pis": serde_json::to_value(&pis).unwrap(),
-                        "vd": vk.as_ref().map(|v| serde_json::to_value(&v.commitment).unwrap()).unwrap_or(Value::Null),
+                        "vd": vd,
                     })
                 }));
                 r.map_err(|p| format!("prover panic: {}", panic_msg(p)))
@@ -413,7 +445,7 @@ macro_rules! uni_target {
             Err(e) => Some(e),
         };
         Target { name, honest, native, build, include: Box::new(|_| true), shape, transcript, pow_bits: (spec.0, spec.1),
-            forge_ids, forge: Some(Box::new(forge_fn)), drift }
+            forge_ids, forge: Some(Box::new(forge_fn)), drift, features }
     }};
 }
 
@@ -494,6 +526,13 @@ macro_rules! batch_target {
         let sp = ShapeParams { mode: "batch", zk: is_zk, d: 4, dg: DIGEST_ELEMS, nrc: if is_zk { 2 } else { 0 },
             cpow: fspec.0, qpow: fspec.1, log_blowup: fspec.2, log_final: fspec.3 };
         let shape = shape_line(&sp, &serde_json::to_value(&proof).unwrap(), &insts);
+        let features = features_of(
+            is_zk,
+            &insts,
+            &airs.iter().map(|a| Siblings::<F>::periods(a)).collect::<Vec<_>>(),
+            &chunk_counts("batch", &serde_json::to_value(&proof).unwrap(), airs.len()),
+            &traces.iter().map(|t| t.height()).collect::<Vec<_>>(),
+        );
         let honest = json!({
             "proof": serde_json::to_value(&proof).unwrap(),
             "pis": serde_json::to_value(&pvs).unwrap(),
@@ -592,7 +631,9 @@ macro_rules! batch_target {
             pow_reads() > r0
         };
         let grind: Vec<(usize, usize)> = if grind_ok { grind_variants(fspec.0, fspec.1) } else { vec![] };
-        let forge_ids = super::forge_ids(&traces.iter().map(|t| t.values.len()).collect::<Vec<_>>(), &pvs.iter().map(|p| p.len()).collect::<Vec<_>>(), &n_lk, &grind);
+        let mut forge_ids = super::forge_ids(&traces.iter().map(|t| t.values.len()).collect::<Vec<_>>(), &pvs.iter().map(|p| p.len()).collect::<Vec<_>>(), &n_lk, &grind);
+        forge_ids.extend(wrongair_ids::<F, _>(&airs));
+        let honest_vd: Value = honest["vd"].clone();
         let forge_fn = {
             let airs = airs.clone();
             let traces = traces.clone();
@@ -603,7 +644,28 @@ macro_rules! batch_target {
                 let mut pvs = pvs.clone();
                 let mut fg = Forge::<$SC>::none();
                 let mut prover_pow: Option<(usize, usize)> = None;
+                // the AIRs the prover proves: the target's, or (wrong-AIR move) a sibling in place of instance `i`
+                // and of every instance altered together with it (the other end of its bus)
+                let mut airs = airs.clone();
+                let mut wrong_air = false;
                 match spec {
+                    super::ForgeSpec::WrongAir(i, k) => {
+                        let base = *airs.get(i).ok_or("instance")?;
+                        for j in 0..airs.len() {
+                            if j == i || Siblings::<F>::same_family(&base, &airs[j]) {
+                                let sibs = Siblings::<F>::siblings(&airs[j]);
+                                let (label, sib) = sibs.into_iter().nth(k).ok_or_else(|| format!("forgery {id}: no such sibling"))?;
+                                if id.split(':').nth(3).is_some_and(|l| l != label) {
+                                    return Err(format!("forgery {id}: sibling {k} is {label}"));
+                                }
+                                let (t, p) = Siblings::<F>::sib_witness(&sib);
+                                traces[j] = t;
+                                pvs[j] = p;
+                                airs[j] = sib;
+                            }
+                        }
+                        wrong_air = true;
+                    }
                     super::ForgeSpec::None => {}
                     super::ForgeSpec::Grind(c, q) => prover_pow = Some((c, q)),
                     super::ForgeSpec::Trace(i, cell, delta) => {
@@ -644,10 +706,16 @@ macro_rules! batch_target {
                         .collect();
                     let pd = ProverData::<$SC>::from_instances(&config, &instances);
                     let proof = forge_prove_batch(&config, &instances, &pd, &fg);
+                    // wrong-AIR move: the verifier keeps ITS verifying data (the target's preprocessed commitment)
+                    let vd = if wrong_air {
+                        honest_vd.clone()
+                    } else {
+                        pd.common.preprocessed.as_ref().map(|g| serde_json::to_value(&g.commitment).unwrap()).unwrap_or(Value::Null)
+                    };
                     json!({
                         "proof": serde_json::to_value(&proof).unwrap(),
                         "pis": serde_json::to_value(&pvs).unwrap(),
-                        "vd": pd.common.preprocessed.as_ref().map(|g| serde_json::to_value(&g.commitment).unwrap()).unwrap_or(Value::Null),
+                        "vd": vd,
                     })
                 }));
                 r.map_err(|p| format!("prover panic: {}", panic_msg(p)))
@@ -660,7 +728,7 @@ macro_rules! batch_target {
             Err(e) => Some(e),
         };
         Target { name, honest, native, build, include: Box::new(|_| true), shape, transcript, pow_bits: (fspec.0, fspec.1),
-            forge_ids, forge: Some(Box::new(forge_fn)), drift }
+            forge_ids, forge: Some(Box::new(forge_fn)), drift, features }
     }};
 }
 
@@ -735,6 +803,13 @@ fn tables_target_spec(tname: &str, spec: Option<FriSpec>) -> Target {
         log_blowup: fs.log_blowup, log_final: fs.log_final };
     let shape = shape_line(&sp, &serde_json::to_value(&bsp.proof).unwrap(), &insts);
     let n_tables = bsp.proof.opened_values.instances.len();
+    let features = features_of(
+        false,
+        &insts,
+        &airs.iter().map(|a| p3_air::BaseAir::<F>::periodic_columns(a).iter().map(|c| c.len()).collect()).collect::<Vec<Vec<usize>>>(),
+        &chunk_counts("batch", &serde_json::to_value(&bsp.proof).unwrap(), n_tables),
+        &bsp.proof.degree_bits.iter().map(|d| 1usize << d).collect::<Vec<_>>(),
+    );
     let honest = json!({"bsp": serde_json::to_value(&bsp).unwrap()});
 
     fn parse(j: &Value) -> Option<BatchStarkProof<MyConfig>> {
@@ -815,6 +890,7 @@ fn tables_target_spec(tname: &str, spec: Option<FriSpec>) -> Target {
         forge_ids: vec![],
         forge: None,
         drift: None,
+        features,
     }
 }
 
@@ -1091,6 +1167,109 @@ pub fn targets(out: &mut Vec<(String, Box<dyn Fn() -> Target>)>) {
         }),
     ));
     pow_targets(out);
+    feature_targets(out);
+}
+
+/// The (PCS flavour x AIR feature) matrix: every feature a verifier treats specially — periodic columns (several
+/// per AIR, mixed periods, period 1, period = trace length, minimal-degree and random tables), preprocessed
+/// columns read on the next row, public values, several quotient chunks (constraint degree 3 and 5), lookups
+/// (batch), instances of different heights (batch) — under each of uni / unizk / batch / batchzk. Every target
+/// carries the wrong-AIR moves of its `FeatAir`s (`wrongair:i:k:label`, see `ForgeSpec::WrongAir`).
+/// (Preprocessed columns read on the current row only are the known findings F-C01-2 / F-C01-3: the targets
+/// `uni|batch/*/mul-prenonext` keep exercising them. Under the hiding PCS the circuits fail in the same place with the
+/// same message — probed with a `FeatAir … .pre(1)` under all four flavours — so no ZK twin of those targets is kept:
+/// it would only restate the two findings under two more class names.)
+fn feature_targets(out: &mut Vec<(String, Box<dyn Fn() -> Target>)>) {
+    // four periodic columns: period 2, period 1, period = trace length (random table), period 4 (low-degree
+    // table); nothing else special
+    const PER: FeatAir = FeatAir::new(8).periodic([2, 1, 8, 4], [true, false, false, true]);
+    // every feature at once: two periodic columns with low-degree tables (period 4, period 8 = trace length),
+    // preprocessed columns read on both rows, public values, constraint degree 3 (two quotient chunks)
+    const ALL: FeatAir = FeatAir::new(8).periodic([4, 8, 0, 0], [true, true, false, false]).pre(2).pubs().degree(3);
+    // four quotient chunks (constraint degree 5), one periodic column of period 8 = half the trace, public values
+    const Q4: FeatAir = FeatAir::new(16).periodic([8, 0, 0, 0], [true, false, false, false]).pubs().degree(5);
+    // the hiding PCS adds one to the constraint degree (randomised quotient): degree 4 is the largest whose quotient
+    // domain still fits the LDE of blowup 4 (degree 5 there makes the *native* prover emit an unverifiable proof)
+    const Q4Z: FeatAir = Q4.degree(4);
+    // the two ends of a bus, each with periodic columns (period 4 random, period 2)
+    const BUSP: FeatAir = FeatAir::new(8).periodic([4, 2, 0, 0], [false, true, false, false]);
+
+    macro_rules! uni_feat {
+        ($name:expr, $air:expr) => {
+            out.push((
+                format!("uni/{TAG}/{}", $name),
+                Box::new(move || uni_target!($name, $air, $air.trace::<F>(), $air.pis::<F>())),
+            ));
+        };
+    }
+    macro_rules! unizk_feat {
+        ($name:expr, $seed:expr, $air:expr) => {
+            out.push((
+                format!("unizk/{TAG}/{}", $name),
+                Box::new(move || {
+                    uni_target!($name, $air, $air.trace::<F>(), $air.pis::<F>(), (|| make_zk_config($seed)), fri_params, MyConfigZk,
+                        InnerFriZk, fri_zk, RecConfigZk, rec_config_zk, (1usize, 1usize, 2usize, 0usize))
+                }),
+            ));
+        };
+    }
+    macro_rules! batch_feat {
+        ($name:expr, $airs:expr, $traces:expr, $pvs:expr) => {
+            out.push((
+                format!("batch/{TAG}/{}", $name),
+                Box::new(move || {
+                    batch_target!($name, MyConfig, InnerFri, |_s: u64| make_test_config(), fri_plain, RecConfig,
+                        (|l: &EvLog| rec_config(l, false)), $airs, $traces, $pvs)
+                }),
+            ));
+        };
+    }
+    macro_rules! batchzk_feat {
+        ($name:expr, $airs:expr, $traces:expr, $pvs:expr) => {
+            out.push((
+                format!("batchzk/{TAG}/{}", $name),
+                Box::new(move || {
+                    batch_target!($name, MyConfigZk, InnerFriZk, make_zk_config, fri_zk, RecConfigZk, rec_config_zk, $airs, $traces, $pvs)
+                }),
+            ));
+        };
+    }
+
+    uni_feat!("feat-per", PER);
+    uni_feat!("feat-all", ALL);
+    uni_feat!("feat-q4", Q4);
+    unizk_feat!("feat-per", 11, PER);
+    unizk_feat!("feat-all", 12, ALL);
+    unizk_feat!("feat-q4", 13, Q4Z);
+    // batch: periodic columns on both ends of a bus, next to a taller lookup-free instance with public values and to
+    // two unconstrained ends of the same bus (on those a forged trace cell leaves the terminal sum as the only failing check)
+    batch_feat!(
+        "feat-per-bus",
+        vec![DemoAir::Feat(BUSP.bus(1)), DemoAir::Fib, DemoAir::Feat(BUSP.bus(-1)), DemoAir::Bus { sign: 1, open_next: false },
+            DemoAir::Bus { sign: -1, open_next: true }],
+        vec![BUSP.trace::<F>(), generate_trace_rows::<F>(0, 1, 16), BUSP.trace::<F>(), bus_trace::<F>(4, 4, 0), bus_trace::<F>(4, 4, 0)],
+        vec![vec![], vec![F::ZERO, F::ONE, F::from_u64(987)], vec![], vec![], vec![]]
+    );
+    // batch: every feature in one instance, a four-column periodic instance, four quotient chunks
+    batch_feat!(
+        "feat-all",
+        vec![DemoAir::Feat(ALL), DemoAir::Feat(PER), DemoAir::Feat(Q4)],
+        vec![ALL.trace::<F>(), PER.trace::<F>(), Q4.trace::<F>()],
+        vec![ALL.pis::<F>(), PER.pis::<F>(), Q4.pis::<F>()]
+    );
+    batchzk_feat!(
+        "feat-per-bus",
+        vec![DemoAir::Feat(BUSP.bus(1)), DemoAir::Fib, DemoAir::Feat(BUSP.bus(-1)), DemoAir::Bus { sign: 1, open_next: false },
+            DemoAir::Bus { sign: -1, open_next: true }],
+        vec![BUSP.trace::<F>(), generate_trace_rows::<F>(0, 1, 16), BUSP.trace::<F>(), bus_trace::<F>(4, 4, 0), bus_trace::<F>(4, 4, 0)],
+        vec![vec![], vec![F::ZERO, F::ONE, F::from_u64(987)], vec![], vec![], vec![]]
+    );
+    batchzk_feat!(
+        "feat-all",
+        vec![DemoAir::Feat(ALL), DemoAir::Feat(PER), DemoAir::Feat(Q4Z)],
+        vec![ALL.trace::<F>(), PER.trace::<F>(), Q4Z.trace::<F>()],
+        vec![ALL.pis::<F>(), PER.pis::<F>(), Q4Z.pis::<F>()]
+    );
 }
 
 /// Verifying FRI parameters that are not the symmetric test defaults (`new_testing`: 1 + 1 grinding bits), for
